@@ -1,9 +1,53 @@
-(* C11 — see DESIGN.md section 7/C11.  Only property theorems here. *)
-From Flyt Require Import Base Script FlowTable Engine BatchConc EngineCorr EngineFacts BatchConcFacts.
+(* C11 — Cancelling a batch stops new items and never hangs or fakes success.
+   Only property theorems here. All schedules, all item / worker counts, all user code. *)
+From Flyt Require Import Base Script FlowTable Engine BatchConc EngineCorr EngineFacts
+     ItemMon BatchConcInv BatchConcItems BatchConcStop BatchConcLive.
 
-(* the concurrent executor only appends callback events (it never rewrites the log and the
-   context is cancelled afterwards exactly when it was before or an event cancelled it) *)
-Theorem C11_executor_appends :
-  forall o rel c k st n s its s' rs, gated_exec o rel c k st n s its = (s', rs) -> ext s s'.
-Proof. exact gated_exec_ext. Qed.
-Print Assumptions C11_executor_appends.
+(* Once the context is cancelled (from a callback or by the environment: TCancel may appear
+   anywhere in the schedule), whatever the rest of the schedule, item i gains no exec attempt
+   beyond the bound m that held at that instant: its attempts so far, plus one if an exec call
+   of item i was already in flight.  No new item is started, no new retry attempt is made; at
+   most one already-committed call per worker completes. *)
+Theorem C11_no_new_work :
+  forall (o : oracle) c nd (items : list val) stopmode nworkers qcap sched s i m,
+    BInv items nworkers s -> cancelled (base s) = true -> allowance_le s i m ->
+    count_exec (il (brun o c nd items stopmode qcap s sched) i) <= m.
+Proof. exact cancel_no_new_work_lemma. Qed.
+Print Assumptions C11_no_new_work.
+
+Theorem C11_cancellation_permanent :
+  forall (o : oracle) c nd (items : list val) stopmode qcap s t s',
+    bstep o c nd items stopmode qcap s t = Some s' -> cancelled (base s) = true -> cancelled (base s') = true.
+Proof. exact bstep_cancelled. Qed.
+Print Assumptions C11_cancellation_permanent.
+
+(* never hangs: while the submitter has not returned some thread of the pool can step (user
+   callbacks are steps of the model: a callback that returns lets its worker go on) *)
+Theorem C11_terminates_no_deadlock :
+  forall (o : oracle) c nd (items : list val) stopmode nworkers qcap,
+    0 < nworkers -> 0 < qcap ->
+    forall s0 sched,
+      let s := brun o c nd items stopmode qcap (binit items nworkers s0) sched in
+      mpc s <> MRet -> exists t, t <> TCancel /\ bstep o c nd items stopmode qcap s t <> None.
+Proof.
+  intros o c nd items stopmode nworkers qcap Hw Hq s0 sched s Hm.
+  apply (no_deadlock_lemma o c nd items stopmode nworkers qcap Hw Hq); auto.
+  - apply brun_inv. apply binit_inv.
+  - apply brun_exit. apply binit_exit.
+Qed.
+Print Assumptions C11_terminates_no_deadlock.
+
+(* never fakes success: every item that was not executed carries an error in its slot
+   (settled: an item without events has one of the two error slots; an item cut short by the
+   context has an error slot matching the context's error) *)
+Theorem C11_slots :
+  forall (o : oracle) c nd (items : list val) stopmode nworkers qcap,
+    has_exec c = true ->
+    forall s0 sched,
+      let s := brun o c nd items stopmode qcap (binit items nworkers s0) sched in
+      (mpc s = MClose \/ mpc s = MRet) ->
+      length (slots s) = length items /\
+      forall i, i < length items ->
+        exists v, slot_at s i = Some v /\ settled c nd (item_at items i) (il s i) v.
+Proof. exact all_settled_lemma. Qed.
+Print Assumptions C11_slots.
